@@ -7,6 +7,7 @@ package factory
 //@ spec func ProcsOK(f *PostProcessorRegistrationDelegate) bool = forall(k, int, implies(0 <= k && k < len(f.componentPostProcessors), f.componentPostProcessors[k] != nil), f.componentPostProcessors[k])
 
 //@ func (*PostProcessorRegistrationDelegate).invokeInitMethods
+//@ terminates
 //@ property C05 C09
 //@ requires [before-processors-done] St[name] == 2
 //@ assigns St, ApsCalls, InitCalls, Failed, CurName
@@ -20,6 +21,7 @@ package factory
 //@ ghost before call Init: CurName = name
 
 //@ func (*PostProcessorRegistrationDelegate).applyPostProcessBeforeInitialization
+//@ terminates
 //@ property C05 C09 C12
 //@ requires [populated] St[name] == 1
 //@ requires [processors-non-nil] ProcsOK(f)
@@ -37,6 +39,7 @@ package factory
 //@ loop 1 invariant [other-components-untouched] forall(m, string, implies(m != name, BeforeLen[m] == old(BeforeLen[m]) && BeforeAt[m] == old(BeforeAt[m])))
 
 //@ func (*PostProcessorRegistrationDelegate).applyPostProcessAfterInitialization
+//@ terminates
 //@ property C05 C09 C12
 //@ requires [init-methods-done] St[name] == 5 || ShortCircuit[name]
 //@ requires [processors-non-nil] ProcsOK(f)
@@ -54,6 +57,7 @@ package factory
 //@ loop 1 invariant [other-components-untouched] forall(m, string, implies(m != name, AfterLen[m] == old(AfterLen[m]) && AfterAt[m] == old(AfterAt[m])))
 
 //@ func (*PostProcessorRegistrationDelegate).InitializeComponent
+//@ terminates
 //@ property C05 C09
 //@ requires [populate-before-initialize] St[name] == 1
 //@ requires [processors-non-nil] ProcsOK(f)
@@ -78,11 +82,17 @@ package factory
 //   FInv(f)     wiring + registry invariant (which includes: cached values are built Metas)
 //@ spec func Reg(f *defaultFactory) container.SingletonComponentRegistry = f.singletonComponentRegistry
 //@ spec func Cur(r container.SingletonComponentRegistry, n string) *component_definition.Meta = ite(r.L1Dom[n], r.L1[n], ite(r.L2Dom[n], r.L2[n], nil))
+// the universe of the termination measure covers every defined name (the factory sets it to exactly that set before
+// each top-level creation)
+//@ spec func DefsWithin(f *defaultFactory) bool = forall(n, string, implies(f.definitionRegistry.DefDom[n], Reg(f).Universe[n]), f.definitionRegistry.DefDom[n])
 //@ spec func FWired(f *defaultFactory) bool = f != nil && f.singletonComponentRegistry != nil && f.definitionRegistry != nil && f.postProcessorRegistrationDelegate != nil && f.allowCircularReferences
 //@ spec func FInv(f *defaultFactory) bool = FWired(f) && RegInv(Reg(f)) && DefInv(f.definitionRegistry) && ProcsOK(f.postProcessorRegistrationDelegate)
 
 //@ func (*defaultFactory).createComponent
 //@ property C01 C02 C03 C05 C09
+//@ decreases 1, Remaining(Reg(f).Universe, Reg(f).IC), Reg(f).Universe[name], 4
+//@ terminates
+//@ requires [universe-covers-definitions] {C02} DefsWithin(f)
 // A-CALLBACK: what a post-processor hands back in place of a component is itself a component object (not a reflect.Value / reflect.Type)
 //@ assume before call CreateProxy: [substitute-is-a-component] PlainComponent(_arg2)
 //@ requires [inv] FInv(f)
@@ -105,6 +115,9 @@ package factory
 // The creating callback handed to the registry: a closure over (f, name).
 //@ func (*defaultFactory).doGetComponent$1
 //@ property C01 C02 C04
+//@ decreases 1, Remaining(Reg(f).Universe, Reg(f).IC), Reg(f).Universe[name], 5
+//@ terminates
+//@ requires-at-creation [universe-covers-definitions] {C02} DefsWithin(f)
 //@ callback (container.SingletonFactory).GetComponent as container.FuncSingletonFactory
 //@ stable f.singletonComponentRegistry, f.definitionRegistry, f.postProcessorRegistrationDelegate
 //@ requires-at-creation [factory-wired] FWired(f) && DefInv(f.definitionRegistry) && ProcsOK(f.postProcessorRegistrationDelegate)
@@ -122,6 +135,9 @@ package factory
 
 //@ func (*defaultFactory).doGetComponent
 //@ property C01 C02 C03 C05 C09
+//@ decreases 1, Remaining(Reg(f).Universe, Reg(f).IC), 1, 1
+//@ terminates
+//@ requires [universe-covers-definitions] {C02} DefsWithin(f)
 //@ requires [inv] FInv(f)
 //@ requires [no-hole] !Reg(f).HasHole
 //@ assigns RegFrame(Reg(f)), CreationFrame()
@@ -145,13 +161,15 @@ package factory
 //@ implements container.Factory
 //@ requires [inv] FInv(f)
 //@ requires [no-hole] !Reg(f).HasHole
-//@ assigns RegFrame(Reg(f)), CreationFrame()
+//@ assigns RegFrame(Reg(f)), CreationFrame(), Reg(f).Universe
+//@ ghost before call doGetComponent: f.singletonComponentRegistry.Universe = f.definitionRegistry.DefDom
 //@ ensures [inv-kept] FInv(f) && !Reg(f).HasHole
 //@ ensures [lookup-is-raw] implies(result1 == nil, Cur(Reg(f), name) != nil && result0 == Cur(Reg(f), name).Raw)
 
 // ---- instantiation-aware hooks of the delegate ---------------------------------------------------------------------
 
 //@ func (*PostProcessorRegistrationDelegate).applyPostProcessBeforeInstantiation
+//@ terminates
 //@ property C05 C09
 //@ requires [before-population] St[name] == 0
 //@ requires [processors-non-nil] ProcsOK(f)
@@ -161,6 +179,7 @@ package factory
 //@ loop 1 invariant [no-failure-so-far] Failed == old(Failed)
 
 //@ func (*PostProcessorRegistrationDelegate).ResolveBeforeInstantiation
+//@ terminates
 //@ property C05 C09
 //@ requires [before-population] St[name] == 0
 //@ requires [processors-non-nil] ProcsOK(f)
@@ -172,6 +191,7 @@ package factory
 //@ ghost before call applyPostProcessAfterInitialization: ShortCircuit = store(ShortCircuit, name, true)
 
 //@ func (*PostProcessorRegistrationDelegate).ResolveAfterInstantiation
+//@ terminates
 //@ property C05 C09 C18
 //@ requires [before-population] St[name] == 0
 //@ requires [processors-non-nil] ProcsOK(f)
@@ -187,6 +207,7 @@ package factory
 //@ loop 1 invariant [trace-so-far] PropsLen[name] >= p0 && forall(k, int, implies(p0 <= k && k < PropsLen[name], 0 <= PropsPos[name][k] && PropsPos[name][k] < _done && toany(PropsAt[name][k]) == toany(f.componentPostProcessors[PropsPos[name][k]])), PropsPos[name][k]) && forall(a, int, forall(b, int, implies(p0 <= a && a < b && b < PropsLen[name], PropsPos[name][a] < PropsPos[name][b])))
 
 //@ func (*PostProcessorRegistrationDelegate).GetEarlyBeanReference
+//@ terminates
 //@ property C03 C09
 //@ requires [processors-non-nil] ProcsOK(f)
 //@ assigns Failed
@@ -200,6 +221,7 @@ package factory
 // ---- creation of one component -------------------------------------------------------------------------------------
 
 //@ func (*defaultFactory).genProxyComponent
+//@ terminates
 //@ property C03
 //@ requires [named] name != "" && PlainComponent(newComponent)
 //@ assigns RTop
@@ -207,6 +229,7 @@ package factory
 //@ ensures [proxy-built] result1 == nil && MetaOK(result0) && fresh(result0) && result0.Raw == newComponent && result0.ProxyMeta == origin && len(result0.Dependent) == 0
 
 //@ func (*defaultFactory).getEarlyBeanReference
+//@ terminates
 //@ property C03 C01
 //@ assume before call genProxyComponent: [substitute-is-a-component] PlainComponent(_arg2)
 //@ requires [wired] FWired(f) && ProcsOK(f.postProcessorRegistrationDelegate) && name != ""
@@ -224,6 +247,8 @@ package factory
 
 // The early-reference callback registered for a component in creation: a closure over (f, name, meta).
 //@ func (*defaultFactory).doCreateComponent$1
+//@ decreases 0, 0, 0, 5
+//@ terminates
 //@ property C01 C03 C04
 //@ callback (container.SingletonFactory).GetComponent as container.FuncSingletonFactory
 //@ stable f.singletonComponentRegistry, f.postProcessorRegistrationDelegate, meta.Base, meta.dependentSet
@@ -241,6 +266,9 @@ package factory
 
 //@ func (*defaultFactory).populateComponent
 //@ property C01 C02 C05 C09
+//@ decreases 1, Remaining(Reg(f).Universe, Reg(f).IC), 1, 2
+//@ terminates
+//@ requires [universe-covers-definitions] {C02} DefsWithin(f) && Reg(f).Universe[name]
 //@ requires [inv] FInv(f) && !Reg(f).HasHole
 //@ requires [fresh-attempt] St[name] == 0 && MetaOK(meta) && Reg(f).IC[name]
 //@ assigns RegFrame(Reg(f)), CreationFrame()
@@ -263,6 +291,9 @@ package factory
 
 //@ func (*defaultFactory).doCreateComponent
 //@ property C01 C02 C03 C05 C09
+//@ decreases 1, Remaining(Reg(f).Universe, Reg(f).IC), 1, 3
+//@ terminates
+//@ requires [universe-covers-definitions] {C02} DefsWithin(f) && Reg(f).Universe[name]
 //@ assume before call genProxyComponent: [substitute-is-a-component] PlainComponent(_arg2)
 //@ requires [inv] FInv(f)
 //@ requires [marked-with-hole] Reg(f).IC[name] && Reg(f).HasHole && Reg(f).Hole == name
@@ -313,7 +344,9 @@ package factory
 //@ implements container.Factory
 //@ requires [inv] FInv(f) && !Reg(f).HasHole
 //@ requires [nothing-in-creation] forall(n, string, !Reg(f).IC[n])
-//@ assigns RegFrame(Reg(f)), CreationFrame(), MetasPos, MetasKey, SortPerm, SortInv, CreatedLen, CreatedAt, Refreshed, NamesSrc, NamesPos
+//@ assigns RegFrame(Reg(f)), CreationFrame(), MetasPos, MetasKey, SortPerm, SortInv, CreatedLen, CreatedAt, Refreshed, NamesSrc, NamesPos, Reg(f).Universe
+// the termination measure of each top-level creation counts the defined names not yet in creation
+//@ ghost before call doGetComponent: f.singletonComponentRegistry.Universe = f.definitionRegistry.DefDom
 //@ let c0 = CreatedLen
 //@ ensures [inv-kept] FInv(f) && !Reg(f).HasHole
 //@ ensures [eager-all-created] implies(result == nil, forall(n, string, implies(f.definitionRegistry.DefDom[n] && !IsLazy(f.definitionRegistry.Def[n]), Reg(f).L1Dom[n]), f.definitionRegistry.DefDom[n]))
@@ -351,6 +384,7 @@ package factory
 // different threads are disjoint because the map range delivers every name once), records a failure on the shared
 // error list, and calls Done exactly once.
 //@ func (*PostProcessorRegistrationDelegate).applyDefinitionRegistryPostProcessors$1
+//@ terminates
 //@ property C20 C09
 //@ thread wg
 //@ requires [wired] processor != nil && factory != nil
@@ -366,6 +400,7 @@ package factory
 //   [failure-surfaces]: ghost Failed is raised exactly when some scan of the round failed, and then the list is
 //   non-empty (lock invariant), so an error is returned.
 //@ func (*PostProcessorRegistrationDelegate).applyDefinitionRegistryPostProcessors
+//@ terminates
 //@ property C20 C09
 //@ requires [factory-given] factory != nil
 //@ requires [no-live-threads] Joined <= Forks && forall(k, int, implies(k >= Forks, !ScanRecorded[k] && !ScanFailed[k]))
@@ -399,6 +434,7 @@ package factory
 //@ frame ScanPhaseFrame() = Forks, Joined, ScanRegion, ScanFailed, ScanRecorded, ScanBase, forkargs(applyDefinitionRegistryPostProcessors, name), forkargs(applyDefinitionRegistryPostProcessors, component)
 
 //@ func (*PostProcessorRegistrationDelegate).RegisterComponentPostProcessors
+//@ terminates
 //@ property C05 C09 C18
 //@ requires [processor-given] f != nil && ps != nil && RawOK(f)
 //@ assigns f.hasInstantiationAwareComponentPostProcessor, f.hasDestructionAwareComponentPostProcessor, f.rawComponentPostProcessors
@@ -411,6 +447,7 @@ package factory
 // every post-processor in the final list is non-nil, and the list has the sorted list's length with every LAZY
 // processor at its sorted position (the built-in placeholder / expression / validation stages are lazy).
 //@ func (*PostProcessorRegistrationDelegate).InvokeBeanFactoryPostProcessors
+//@ terminates
 //@ property C05 C09 C18
 //@ requires [given] f != nil && factory != nil && RawOK(f) && ProcsOK(f)
 //@ requires [factory-processors-non-nil] forall(k, int, implies(0 <= k && k < len(factoryProcessors), factoryProcessors[k] != nil), factoryProcessors[k])
@@ -446,6 +483,7 @@ package factory
 //@ loop 1 invariant [collecting] Failed == old(Failed) && RawOK(f.postProcessorRegistrationDelegate) && ProcsOK(f.postProcessorRegistrationDelegate) && f.registeredComponents != nil && forall(k, int, implies(0 <= k && k < len(factoryPostProcessors), factoryPostProcessors[k] != nil), factoryPostProcessors[k]) && Joined == old(Joined) && Forks == old(Forks) && ScanRecorded == old(ScanRecorded) && ScanFailed == old(ScanFailed) && RanLen == old(RanLen) && RanAt == old(RanAt) && RanSrc == old(RanSrc) && Refreshed == old(Refreshed)
 
 //@ func (*defaultFactory).registerBeanPostProcessors
+//@ terminates
 //@ property C09 C18 C05
 //@ requires [given] f != nil && f.postProcessorRegistrationDelegate != nil && postProcessor != nil && RawOK(f.postProcessorRegistrationDelegate)
 //@ assigns f.postProcessorRegistrationDelegate.hasInstantiationAwareComponentPostProcessor, f.postProcessorRegistrationDelegate.hasDestructionAwareComponentPostProcessor, f.postProcessorRegistrationDelegate.rawComponentPostProcessors
